@@ -158,14 +158,38 @@ type c17Parse struct {
 	Raw   string    `json:"raw,omitempty"` // mutated string (generic invariant only)
 }
 
+// parseURI parses s; when that succeeds it scribbles over the returned value and parses s again: ParseURI
+// is a function of the string - what a caller did to an earlier result must not show in a later one.
+func parseURI(s string) (*stun.URI, error) {
+	u1, err := stun.ParseURI(s)
+	if err != nil {
+		return nil, err
+	}
+	snap := *u1
+	u1.Scheme, u1.Host, u1.Port, u1.Proto = stun.SchemeTypeUnknown, "scribbled.invalid", -7, stun.ProtoTypeUnknown
+	u2, err2 := stun.ParseURI(s)
+	if err2 != nil {
+		return nil, fmt.Errorf("harness-detected: ParseURI(%q) succeeded, and failed (%v) when called again after the caller modified the first result", s, err2) //nolint:goerr113
+	}
+	if *u2 != snap {
+		return nil, fmt.Errorf("harness-detected: ParseURI(%q) returned %+v, and %+v when called again after the caller modified the first result", s, snap, *u2) //nolint:goerr113
+	}
+
+	return u2, nil
+}
+
 func runC17Parse(c c17Parse) error {
 	if c.Parts == nil {
 		var u *stun.URI
 		var err error
-		if perr := pbt.Safely(func() { u, err = stun.ParseURI(c.Raw) }); perr != nil {
+		if perr := pbt.Safely(func() { u, err = parseURI(c.Raw) }); perr != nil {
 			return perr
 		}
 		if err != nil {
+			if strings.HasPrefix(err.Error(), "harness-detected: ") {
+				return errors.New(strings.TrimPrefix(err.Error(), "harness-detected: ")) //nolint:goerr113
+			}
+
 			return nil
 		}
 
@@ -175,8 +199,11 @@ func runC17Parse(c c17Parse) error {
 	want := refURI(*c.Parts)
 	var u *stun.URI
 	var err error
-	if perr := pbt.Safely(func() { u, err = stun.ParseURI(s) }); perr != nil {
+	if perr := pbt.Safely(func() { u, err = parseURI(s) }); perr != nil {
 		return perr
+	}
+	if err != nil && strings.HasPrefix(err.Error(), "harness-detected: ") {
+		return errors.New(strings.TrimPrefix(err.Error(), "harness-detected: ")) //nolint:goerr113
 	}
 	switch want.verdict {
 	case "reject":
@@ -648,8 +675,14 @@ func TestC17_ParseExhaustive(t *testing.T) {
 		idx++
 		if int(idx%int64(nshards)) == shard {
 			c := c17Parse{Raw: s}
-			u, err := stun.ParseURI(s)
+			u, err := parseURI(s)
 			loc.Case("exhaustive", evid.NewH().Str(s).Sum(), err == nil)
+			if err != nil && strings.HasPrefix(err.Error(), "harness-detected: ") {
+				pbt.Fail(t, rec, "parse", c, "%s", strings.TrimPrefix(err.Error(), "harness-detected: "))
+				failed = true
+
+				return false
+			}
 			if err == nil {
 				if ierr := genericInvariant(u); ierr != nil {
 					pbt.Fail(t, rec, "parse", c, "ParseURI(%q) accepted %+v: %v", s, *u, ierr)
